@@ -82,7 +82,8 @@ def gen_case(tp, tier):
         for st in r['body']:
             if st[0] == 'tempo':
                 st[2] = tp.choice(TEMPOS)
-    prog['routines'][0]['seed'] = tp.draw(1000)
+    prog['routines'][0]['seed'] = tp.choice([0, tp.draw(1000),
+                                             tp.draw(1000)])
     ctr = [0]
 
     def renum(els):
